@@ -98,9 +98,9 @@ Section Main.
   Proof.
     intros st0 Hst0.
     apply (iter2_terminates (cover_step intersects contains cv) (wf_st intersects contains cv) (fun st => sumw (snd st))).
-    - intros st (Hr & Hq). apply (sumw_nonneg intersects contains cv). exact Hq.
-    - intros st Hst. pose proof (step_wf intersects contains cv Hwf st Hst) as H1.
-      pose proof (step_measure intersects contains cv st Hst) as H2.
+    - intros st (Hr & Hq). apply (sumw_nonneg intersects contains pts cv). exact Hq.
+    - intros st Hst. pose proof (step_wf intersects contains pts cv Hwf st Hst) as H1.
+      pose proof (step_measure intersects contains pts cv st Hst) as H2.
       destruct (cover_step intersects contains cv st); [split; assumption|exact I].
     - exact Hst0.
     - (* the initial weight is below 2^(200 + number of queue entries) *)
@@ -177,8 +177,8 @@ Section Main.
                   (fun st => wf_st intersects contains cv st /\ lvl_st cv st)
                   (fun st => wf_st intersects contains cv st /\ lvl_st cv st)) as Hinv.
     specialize (Hinv ltac:(intros st (H1 & H2);
-       pose proof (step_wf intersects contains cv Hwf st H1);
-       pose proof (step_lvl intersects contains cv Hwf st H1 H2);
+       pose proof (step_wf intersects contains pts cv Hwf st H1);
+       pose proof (step_lvl intersects contains pts cv Hwf st H1 H2);
        destruct (cover_step intersects contains cv st); split; assumption) (loop_fuel st0) st0 (conj Hwf0 Hl0)).
     rewrite Eloop in Hinv. destruct Hinv as ((Vraw & _) & (Lraw & _)). cbn [fst] in Vraw, Lraw.
     split; [exact Vraw|]. split; [exact Lraw|]. split.
@@ -187,7 +187,7 @@ Section Main.
                     (fun st => wf_st intersects contains cv st /\ cov_of st x)
                     (fun st => covered (fst st) x)) as Hcv.
       specialize (Hcv ltac:(intros st (H1 & H2);
-         pose proof (step_wf intersects contains cv Hwf st H1);
+         pose proof (step_wf intersects contains pts cv Hwf st H1);
          pose proof (step_cov intersects contains pts cv Hwf HI Hext st x H1 Hx Hp H2);
          destruct (cover_step intersects contains cv st); [split; assumption|assumption]) (loop_fuel st0) st0).
       rewrite Eloop in Hcv. apply Hcv. split; [exact Hwf0|].
@@ -197,8 +197,8 @@ Section Main.
                     (fun st => wf_st intersects contains cv st /\ res_contained contains st)
                     (fun st => res_contained contains st)) as Hcn.
       specialize (Hcn ltac:(intros st (H1 & H2);
-         pose proof (step_wf intersects contains cv Hwf st H1);
-         pose proof (step_contained intersects contains cv Hint st H1 H2);
+         pose proof (step_wf intersects contains pts cv Hwf st H1);
+         pose proof (step_contained intersects contains pts cv Hint st H1 H2);
          destruct (cover_step intersects contains cv st); [split; assumption|assumption]) (loop_fuel st0) st0).
       rewrite Eloop in Hcn. apply Hcn. split; [exact Hwf0|].
       apply init_fold_contained; auto. constructor.
